@@ -454,6 +454,9 @@ class Task(BaseModel, ABC):
     data: dict | None = None
     objective_weights: list[float] | None = None
 
+    # the direction (and every other field) is validated wherever it is given: as a subclass default and on assignment too, not only in the constructor
+    model_config = ConfigDict(validate_assignment=True, validate_default=True)
+
     _EPS = PrivateAttr()
 
     def __init__(self, **kwargs: Any):
